@@ -80,6 +80,9 @@ WRAPPERS = [
     Wrapper("loadNeededValues_ptr", "loadNeededValues", [PD]),
     Wrapper("loadNeededValues_vec", "loadNeededValues", [VD], {"loadNeededValues": "loadNeededValues_ptr"}),
     Wrapper("beginConstruction", "beginConstruction", [], {"clearRefinement": "clearRefinement"}),
+    Wrapper("clear", "clear", []),
+    Wrapper("setDomainTransform_vec", "setDomainTransform", [VD, VD]),
+    Wrapper("clearDomainTransform", "clearDomainTransform", []),
 ]
 
 MEMBER_PREDICATES = ["clear", "empty", "isGlobal", "isSequence", "isLocalPolynomial", "isWavelet", "isFourier",
@@ -107,7 +110,6 @@ def rewrite_body(R, w, b, params):
         b = R.sub("R5g-ptr-test", r'\b%s\s*!=\s*0\b' % p, '(!%s.null)' % p, b)
         b = R.sub("R5g-ptr-test", r'\b%s\s*==\s*0\b' % p, '(%s.null)' % p, b)
     b = R.sub("R2-nullptr", r'\bnullptr\b', 'gptr_null()', b)
-    b = R.sub("R5g-temp-vector", r'std::vector<int>\(\)', 'gvec_empty()', b)
     b = X.balanced_call_sub(R, "R2-std-move", b, r'\bstd::move\s*(?=\()', lambda m, a: a)
     b = X.balanced_call_sub(R, "R5g-copyArray", b, r'\bUtils::copyArray\s*(?=\()', lambda m, a: "gvec_copyArray(%s)" % a)
     b = X.balanced_call_sub(R, "R10-make_unique", b, r'\bUtils::make_unique<\s*(\w+)\s*>\s*(?=\()',
@@ -123,6 +125,10 @@ def rewrite_body(R, w, b, params):
                                 lambda m, a, tag=tag: "TSGW_%s(self%s)" % (tag, (", " + a) if a.strip() else ""))
     for mp in MEMBER_PREDICATES:
         b = R.sub("R10-member-call", r'(?<![\w>.:])%s\s*\(\s*\)' % mp, 'TSG_%s(self)' % mp, b)
+    b = R.sub("R10-null-base", r'std::unique_ptr<BaseCanonicalGrid>\(\)', 'K_none', b)
+    b = R.sub("R5g-temp-vector", r'std::vector<(?:int|double)>\(\)', 'gvec_empty()', b)
+    b = R.sub("R5g-member-resize0", r'(?<![\w>.])(domain_transform_[ab])\.resize\(0\)', r'self->\1 = gvec_empty()', b)
+    b = R.sub("R10-member", r'(?<![\w>.])(domain_transform_a|domain_transform_b|conformal_asin_power)\b', r'self->\1', b)
     b = R.sub("R10-member", r'(?<![\w>.])llimits\b', 'self->llimits', b)
     b = R.sub("R10-member", r'(?<![\w>.])using_dynamic_construction\b', 'self->using_dynamic_construction', b)
     b = R.sub("R10-member", r'(?<![\w>._])base\s*=(?!=)', 'self->base =', b)
@@ -184,8 +190,8 @@ def emit_copyGrid(R):
     b = R.sub("R10-self-call", r'\btemp\.copyGrid\(\s*source\s*,\s*outputs_begin\s*,\s*outputs_end\s*\)', 'TSGW_copyGrid(&temp, source, outputs_begin, outputs_end)', b)
     b = R.sub("R10-self-call", r'(?<![\w>.:])copyGrid\(\s*&temp\s*\)', 'TSGW_copyGrid(self, &temp, 0, -1)', b)
     b = R.sub("R10-source-call", r'\bsource->(getNumOutputs|empty|isGlobal|isSequence|isLocalPolynomial|isWavelet|isFourier)\(\)', r'TSG_\1(source)', b)
-    b = R.sub("R10-source-member", r'\bsource->domain_transform_a\.size\(\)', 'source->transform_size', b)
-    b = R.sub("R10-self-call", r'(?<![\w>.:])setDomainTransform\(\s*source->domain_transform_a\s*,\s*source->domain_transform_b\s*\)', 'TSG_setDomainTransform_from(self, source)', b)
+    b = R.sub("R10-source-member", r'\bsource->domain_transform_a\.size\(\)', 'source->domain_transform_a.size', b)
+    b = R.sub("R10-self-call", r'(?<![\w>.:])setDomainTransform\(\s*source->domain_transform_a\s*,\s*source->domain_transform_b\s*\)', 'TSGW_setDomainTransform_vec(self, source->domain_transform_a, source->domain_transform_b)', b)
     b = R.sub("R10-member-call", r'(?<![\w>.:])clear\s*\(\s*\)', 'TSG_clear(self)', b)
     b = R.sub("R10-member-call", r'(?<![\w>.:])getNumOutputs\s*\(\s*\)', 'TSG_getNumOutputs(self)', b)
     for mname in ("llimits", "using_dynamic_construction", "conformal_asin_power"):
